@@ -7,7 +7,7 @@ from props import PROPS
 from manifest_text import TEXT, NOT_APPLICABLE
 
 checks = []
-for pid in sorted(PROPS):
+for pid in sorted(TEXT):
     t = TEXT[pid]
     checks.append({
         "property_id": pid,
@@ -32,7 +32,7 @@ m = {
     },
     "engines": [{
         "name": "rocq-proof+correspondence", "path": "/verif/coq + /verif/harness + /verif/bin/check.py",
-        "serves_properties": sorted(PROPS),
+        "serves_properties": sorted(TEXT),
         "kind_free_text": "Machine-checked proof in Rocq (Coq 8.16.1) about a hand-written executable Gallina model (coq/theories), "
                           "property theorems in coq/props closed by Print Assumptions, tied to /repo's working tree on every run by a "
                           "correspondence driver (Go, overlay-built against /repo) whose observations are judged by Gallina monitors "
